@@ -24,6 +24,7 @@ CONSTANTS Files,      \* sequence of assembly file keys in directory walk order
           Sources,    \* set of source ids
           Compiles(_), \* Compiles(s): does source s compile on its own
           Formats(_),  \* Formats(s): can source s be formatted (no unbalanced end marker, no bad flag ...)
+          Lints(_),    \* Lints(s): `format --check' reports s even when it is laid out canonically (upper case in a class under flag i)
           FmtAborts(_) \* FmtAborts(s): formatting s ends the whole process (a deliberate panic), not just this file
 
 VARIABLES src, canon, stored, rulesFile, tests, marks,   \* the tree
@@ -64,12 +65,16 @@ CompareAll(github) ==
     IN  /\ exit' = IF broken \/ (github /\ stale) THEN 1 ELSE 0
         /\ wrote' = {} /\ UNCHANGED tree /\ Log(<<"compare-all", github>>)
 
-FormatCheck(f) == /\ exit' = IF CanFmt(f) /\ canon[f] THEN 0 ELSE 1
+FormatCheck(f) == /\ exit' = IF CanFmt(f) /\ canon[f] /\ ~Lints(src[f]) THEN 0 ELSE 1
                   /\ wrote' = {} /\ UNCHANGED tree /\ Log(<<"format-check", f>>)
-FormatCheckAll == /\ exit' = IF \A f \in FileSet : Present(f) => (canon[f] /\ Formats(src[f])) THEN 0 ELSE 1
+FormatCheckAll == /\ exit' = IF \A f \in FileSet : Present(f) => (canon[f] /\ Formats(src[f]) /\ ~Lints(src[f])) THEN 0 ELSE 1
                   /\ wrote' = {} /\ UNCHANGED tree /\ Log(<<"format-check-all">>)
 RenumberCheck  == /\ exit' = IF tests = "numbered" THEN 0 ELSE 1
                   /\ wrote' = {} /\ UNCHANGED tree /\ Log(<<"renumber-check">>)
+
+\* `version' (CI=true: no look-up of newer releases) and `completion <shell>' only print
+Version         == /\ exit' = 0 /\ wrote' = {} /\ UNCHANGED tree /\ Log(<<"version">>)
+Completion(sh)  == /\ exit' = 0 /\ wrote' = {} /\ UNCHANGED tree /\ Log(<<"completion", sh>>)
 
 (***************************************************************************)
 (* Rewriting commands.                                                     *)
@@ -120,6 +125,19 @@ Renumber == /\ tests' = "numbered" /\ exit' = 0
             /\ wrote' = IF tests = "numbered" THEN {} ELSE {<<"tests">>}
             /\ UNCHANGED <<src, canon, stored, rulesFile, marks>> /\ Log(<<"renumber">>)
 
+\* renumber-tests NAME [--check]: NAME is resolved by a file-system glob (NAME.*) in the test directories.
+\*   kind "test"    the one match is the regression test file NNNNNN.yaml
+\*   kind "parked"  the one match is another file (NNNNNN.yaml.disabled, notes.md): never a target;
+\*                  the exit status is not specified by any property (2 stands for "either")
+\*   kind "missing" nothing matches
+RenumberOne(arg, kind, check) ==
+    /\ CASE kind = "test" /\ ~check -> tests' = "numbered" /\ exit' = 0
+                                       /\ wrote' = IF tests = "numbered" THEN {} ELSE {<<"tests">>}
+         [] kind = "test" /\ check  -> exit' = (IF tests = "numbered" THEN 0 ELSE 1) /\ wrote' = {} /\ UNCHANGED tests
+         [] kind = "parked"         -> exit' = 2 /\ wrote' = {} /\ UNCHANGED tests
+         [] kind = "missing"        -> exit' = 1 /\ wrote' = {} /\ UNCHANGED tests
+    /\ UNCHANGED <<src, canon, stored, rulesFile, marks>> /\ Log(<<"renumber-one", arg, kind, check>>)
+
 \* a version that is not a semantic version is rejected before anything is touched
 Copyright(v, valid) ==
     /\ IF valid THEN marks' = v /\ exit' = 0 ELSE exit' = 1 /\ UNCHANGED marks
@@ -129,7 +147,9 @@ Copyright(v, valid) ==
 (***************************************************************************)
 (* Properties.                                                             *)
 (***************************************************************************)
-IsInspect(c) == c[1] \in {"generate", "compare", "compare-all", "format-check", "format-check-all", "renumber-check"}
+IsInspect(c) == c[1] \in {"generate", "compare", "compare-all", "format-check", "format-check-all", "renumber-check",
+                          "version", "completion"}
+                \/ (c[1] = "renumber-one" /\ (c[4] \/ c[3] # "test"))
 
 \* C15: inspecting commands never write; every command writes only its own kind of target
 FrameOK == last # <<>> =>
@@ -138,7 +158,7 @@ FrameOK == last # <<>> =>
     /\ last[1] = "update-all" => \A w \in wrote : w[1] = "rules"
     /\ last[1] = "format"     => wrote \subseteq {<<"ra", last[2]>>}
     /\ last[1] = "format-all" => \A w \in wrote : w[1] = "ra"
-    /\ last[1] = "renumber"   => wrote \subseteq {<<"tests">>}
+    /\ last[1] \in {"renumber", "renumber-one"} => wrote \subseteq {<<"tests">>}
     /\ last[1] = "copyright"  => wrote \subseteq {<<"marks">>}
     \* and `wrote' is exactly what differs between pre and the tree
     /\ (wrote = {}) <=> (TreeRec = pre)
